@@ -22,6 +22,16 @@ CHECKS = {
          "commit and pre-commit flavour)."),
 }
 
+CHECKS.update({
+ "C03": ("5.3", "History-wide oracle over every library instance's complete outbox in the adversarial simulations: one proposal/response hash per view, one commit and one pre-commit per height, no view change and no change-view request after the (pre)commit, retransmissions (direct or embedded in recovery messages) identical to the original, non-decreasing view of own top-level messages."),
+ "C04": ("5.4", "Precondition of every prepare response, commit/pre-commit and view increase re-evaluated at the instant it happens, from the node's tables and from the harness's independent record of authentic deliveries (exact and superset tests), with N not of the form 3F+1 included."),
+ "C05": ("5.5", "Multi-height adversarial simulations with slow Reset, ledger sync that skips heights and changing validator sets: one decision per initialisation, whole-state fingerprint unchanged by every call on a decided node (except recovery replies), and a full post-Reset audit including the unexported future-message cache (verif accessor)."),
+ "C07": ("5.7", "Per-instance automaton over callback/broadcast order in simulations with the anti-MEV extension on from genesis or switching on mid-run, failing ProcessPreBlock/ProcessBlock callbacks, early pre-commits, observers."),
+ "C10": ("5.10", "Timer audit after every API call of every undecided validator in all adversarial simulations (armed, right height/view, non-negative duration, expiry not consumed), views capped at 8 per height."),
+ "C12": ("5.12", "Obligation tracking per (node, height, view): union of RequestTx arguments vs OnTransaction supplies under the property's precondition, in simulations biased to differing mempools, invalid transactions, slow supply and cached next-view proposals (the nested case)."),
+ "C13": ("5.13", "Broadcast / Block.Sign / PreBlock.SetData of observers and flagged validators are violations at the instant they happen, in simulations that place the flagged validator at the primary position at Start and after Resets."),
+ "C14": ("5.14", "Every tape is executed twice against clocks that differ by a constant offset (seconds to decades, both signs, on both sides of the machine's wall clock); canonical traces (timestamps relative to the epoch, hashes as ordinals, timer durations verbatim) must be identical."),
+})
 PLANNED = {}
 NOT_APPLICABLE = {
  "C06": "pure function of three integers (N, height, view) with no schedule, clock, fault or interleaving in it; deciding it is enumeration of a finite domain, a different technique (DESIGN.md section 6). The simulator recomputes F, M and the primary independently in its oracles for N<=10, which is supporting evidence only.",
